@@ -20,7 +20,7 @@ import subprocess
 import sys
 import time
 
-ROOT = "/verif"
+ROOT = os.environ.get("VERIF_ROOT", "/verif")
 COQ = os.path.join(ROOT, "coq")
 BUILD = os.path.join(ROOT, "build")
 
